@@ -7,7 +7,9 @@ src2 = '/tmp/seed2'
 out = '/verif/seeded'
 os.makedirs(out, exist_ok=True)
 summary = []
-for sid in sorted(needs):
+only = set(sys.argv[1:])
+from concurrent.futures import ThreadPoolExecutor
+def one(sid):
     d = os.path.join(src, sid)
     if not os.path.isdir(d):
         d = os.path.join(src2, sid)
@@ -15,6 +17,8 @@ for sid in sorted(needs):
         d = os.path.join('/tmp/seed3', sid)
     if not os.path.isdir(d):
         d = os.path.join('/tmp/seed4', sid)
+    if not os.path.isdir(d):
+        d = os.path.join('/tmp/seed5', sid)
     if not os.path.isdir(d):
         d = os.path.join(out, sid)
     prop = sid.split('-')[0]
@@ -32,19 +36,20 @@ for sid in sorted(needs):
     news = re.findall(r'   NEW \[([^\]]+)\] (.*?) @', o)
     confirmed = suite_ok and demo_without_ok and demo_with_fail
     dst = os.path.join(out, sid)
-    if os.path.exists(dst):
-        shutil.rmtree(dst)
-    os.makedirs(dst)
-    for f in os.listdir(d):
-        if f.endswith('.orig.diff') or f.endswith('.rebased.diff'):
-            continue
-        shutil.copy(os.path.join(d, f), os.path.join(dst, f))
+    if os.path.abspath(d) != os.path.abspath(dst):
+        if os.path.exists(dst):
+            shutil.rmtree(dst)
+        os.makedirs(dst)
+        for f in os.listdir(d):
+            if f.endswith('.orig.diff') or f.endswith('.rebased.diff') or os.path.isdir(os.path.join(d, f)):
+                continue
+            shutil.copy(os.path.join(d, f), os.path.join(dst, f))
     demos = [f for f in os.listdir(d) if f.endswith('_test.go')]
     meta = {
         'id': sid, 'property': prop,
         'change': needs[sid][0], 'needs_to_manifest': needs[sid][1],
-        'origin': 'written by an independent sub-agent given only the property text and a scratch worktree of /repo (nothing from /verif)' + ('; round 2: told which round-1 ideas to avoid' if sid[-1] in 'xy' else '; round 3: told which round-1 and round-2 ideas to avoid' if sid[-1] in 'pq' else '; round 4: told all 72 earlier ideas, asked for cross-function interactions' if sid[-1] in 'st' else ''),
-        'round': 2 if sid[-1] in 'xy' else 3 if sid[-1] in 'pq' else 4 if sid[-1] in 'st' else 1,
+        'origin': 'written by an independent sub-agent given only the property text and a scratch worktree of /repo (nothing from /verif)' + ('; round 2: told which round-1 ideas to avoid' if sid[-1] in 'xy' else '; round 3: told which round-1 and round-2 ideas to avoid' if sid[-1] in 'pq' else '; round 4: told all 72 earlier ideas, asked for cross-function interactions' if sid[-1] in 'st' else '; round 5: no list of earlier ideas given (measures what a first idea by a fresh author looks like), two changes per author' if sid[-1] in 'uv' else ''),
+        'round': 2 if sid[-1] in 'xy' else 3 if sid[-1] in 'pq' else 4 if sid[-1] in 'st' else 5 if sid[-1] in 'uv' else 1,
         'files': {'patch': 'patch.diff', 'demonstration': demos, 'author_notes': 'NOTES.md'},
         'confirmed': confirmed,
         'what_was_run': [
@@ -58,6 +63,16 @@ for sid in sorted(needs):
         'reported_constructs': [n[1] for n in news][:4],
     }
     json.dump(meta, open(os.path.join(dst, 'meta.json'), 'w'), indent=1)
-    summary.append((sid, confirmed, meta['detected'], ','.join(meta['detected_by'])))
     print(sid, 'confirmed' if confirmed else 'NOT-CONFIRMED', 'detected' if meta['detected'] else 'MISSED', meta['detected_by'])
-json.dump(summary, open(os.path.join(out, 'SUMMARY.json'), 'w'), indent=1)
+    return (sid, confirmed, meta['detected'], ','.join(meta['detected_by']))
+ids = [sid for sid in sorted(needs) if not only or sid in only]
+with ThreadPoolExecutor(max_workers=5) as ex:
+    results = list(ex.map(one, ids))
+old = {}
+try:
+    old = {x[0]: x for x in json.load(open(os.path.join(out, 'SUMMARY.json')))}
+except Exception:
+    pass
+for x in results:
+    old[x[0]] = list(x)
+json.dump([old[k] for k in sorted(old)], open(os.path.join(out, 'SUMMARY.json'), 'w'), indent=1)
